@@ -29,7 +29,10 @@ var SkipInitPrefixes = []string{
 }
 
 // zeroOK lists globals of packages with skipped init that may be read as zero values.
-var zeroOKGlobals = map[string]bool{}
+var zeroOKGlobals = map[string]bool{
+	"crypto/rand.Reader":                      true, // io.ReadFull on it is an intrinsic
+	"go.uber.org/zap/zapcore.DefaultClock":    true, // only read by a logger that writes; harness loggers are no-ops
+}
 
 func ShouldSkipInit(path string) bool {
 	for _, p := range SkipInitPrefixes {
